@@ -33,6 +33,22 @@ class InjectedComputeFault(Exception):
 
 BEFORE, MKDIR, TORN = 0, 1, 2
 
+# exception classes a fault can be raised with
+INJECTED, OSERROR, STOP, GENEXIT, NATURAL = 0, 1, 2, 3, 4
+
+
+def _exc(cls, own, msg):
+    """cls 0: the injector's own Exception subclass `own`; 1: OSError; 2: StopIteration (an Exception that
+    generators and iterator consumers treat specially); 3: GeneratorExit (a BaseException that `except Exception`
+    does not catch)."""
+    if cls == OSERROR:
+        return OSError(msg)
+    if cls == STOP:
+        return StopIteration(msg)
+    if cls == GENEXIT:
+        return GeneratorExit(msg)
+    return own(msg)
+
 _PART = re.compile(r'^part-(\d{5,})$')
 _OLD = re.compile(r'^old-(\d)$')
 
@@ -89,18 +105,20 @@ def materialise(root, pre):
 class _FailingOpenIO:
     """Stands in for the `io` module inside fileio/fs/local.py during one dump call."""
 
+    def __init__(self, cls):
+        self._cls = cls
+
     def __getattr__(self, item):
         return getattr(io, item)
 
-    @staticmethod
-    def open(*_a, **_k):
-        raise InjectedWriteFault('open')
+    def open(self, *_a, **_k):
+        raise _exc(self._cls, InjectedWriteFault, 'open')
 
 
 class FaultFS:
     def __init__(self, root, wfaults):
         self.root = root
-        self.wfaults = {int(k): (int(mode), int(j)) for k, mode, j in wfaults}
+        self.wfaults = {int(w[0]): (int(w[1]), int(w[2]), int(w[3]) if len(w) > 3 else INJECTED) for w in wfaults}
         self.calls = 0
         self.snapshots = []
         self._orig = None
@@ -125,11 +143,11 @@ class FaultFS:
         try:
             if fault is None:
                 return self._orig(fs_self, stream)
-            mode, j = fault
+            mode, j, cls = fault
             if mode == BEFORE:
-                raise InjectedWriteFault(f'dump call {k}')
+                raise _exc(cls, InjectedWriteFault, f'dump call {k}')
             if mode == MKDIR:
-                _local.io = _FailingOpenIO()
+                _local.io = _FailingOpenIO(cls)
                 try:
                     return self._orig(fs_self, stream)
                 finally:
@@ -137,8 +155,9 @@ class FaultFS:
             data = b''.join(stream)
 
             def torn():
+                # a generator: a StopIteration raised here reaches the consumer as RuntimeError (PEP 479)
                 yield data[:j]
-                raise InjectedWriteFault(f'dump call {k} after {j} bytes')
+                raise _exc(cls, InjectedWriteFault, f'dump call {k} after {j} bytes')
             return self._orig(fs_self, torn())
         finally:
             self.snapshots.append(snapshot(self.root))
@@ -146,24 +165,31 @@ class FaultFS:
 
 class FaultyPartitions:
     """f(index, iterator) for RDD.mapPartitionsWithIndex: partition `i` yields data[i]; attempt `a` (1-based,
-    counted per partition) raises InjectedComputeFault when (i, a) is in the plan -- at the call for even
-    i + a, lazily after the first element (or at exhaustion) for odd i + a."""
+    counted per partition) fails when the plan has an entry (i, a, cls, lazy): eagerly (at the call of the
+    partition function) or lazily (from a generator, after its first element or at exhaustion) with an exception
+    of class `cls`; cls NATURAL = the partition function does `next()` on an empty iterator, the classic
+    head-of-partition idiom, which raises StopIteration by itself."""
 
     def __init__(self, data, cfaults):
         self.data = data
-        self.cfaults = {(int(i), int(a)) for i, a in cfaults}
+        self.cfaults = {(int(c[0]), int(c[1])): (int(c[2]) if len(c) > 2 else INJECTED, bool(c[3]) if len(c) > 3 else False)
+                        for c in cfaults}
         self.attempts = {}
 
     def __call__(self, idx, _it):
         a = self.attempts.get(idx, 0) + 1
         self.attempts[idx] = a
-        if (idx, a) in self.cfaults:
-            if (idx + a) % 2 == 0:
-                raise InjectedComputeFault(f'partition {idx} attempt {a}')
-            return self._lazy_fault(idx, a)
+        fault = self.cfaults.get((idx, a))
+        if fault is not None:
+            cls, lazy = fault
+            if cls == NATURAL:
+                return [next(iter(()))]
+            if not lazy:
+                raise _exc(cls, InjectedComputeFault, f'partition {idx} attempt {a}')
+            return self._lazy_fault(idx, a, cls)
         return iter(list(self.data[idx]))
 
-    def _lazy_fault(self, idx, a):
+    def _lazy_fault(self, idx, a, cls):
         for x in self.data[idx][:1]:
             yield x
-        raise InjectedComputeFault(f'partition {idx} attempt {a} (lazy)')
+        raise _exc(cls, InjectedComputeFault, f'partition {idx} attempt {a} (lazy)')
